@@ -1,6 +1,7 @@
 import SnootyVerif.Gen.Schema
 import SnootyVerif.Proofs.Schema
 import SnootyVerif.Proofs.Visitor
+import SnootyVerif.Proofs.Refs
 /-!
 # C04 — every emitted AST is well-formed and serialisable
 
@@ -181,5 +182,33 @@ example : (walkDoc (.mk 0 1 .normal .parent false [.mk 1 1 .normal .dlItem false
       (fun t => (t.clean, t.cs.map (fun c => (c.term.map T.id, c.cs.map T.id)))) = some (true, [([3], [4])]) := by decide
 
 end
+
+/-! ### a cross-reference carries a destination or the page has a diagnostic for it -/
+section RefDestination
+open SnootyVerif SnootyVerif.Targets SnootyVerif.Refs
+
+/-- **Every cross-reference role that `RefsHandler` processes either carries a destination or is reported.** For every
+target database, every loaded inventory, every reference other than `:doc:` (whose destination is its `fileid`, attached
+by `_attach_doc_title`): the node leaves pass 5 with `fileid`+html id or a `url`, or a target-not-found diagnostic was
+appended to the page's diagnostics. There is no third outcome (model of `RefsHandler.enter_node`, tied to the code by the
+C08 correspondence). -/
+theorem refrole_destination (P : Params) (db : Db) (invs : List Inventory) (root : String) (r : Ref) (o : RefOut)
+    (hdoc : ¬ (r.domain = stdS ∧ r.role = docS)) (h : resolveRef P db invs root r = .ok o) :
+    o.dest ≠ .none ∨ ∃ d ∈ o.diags, d = Diag.notFound r.role r.target := by
+  unfold resolveRef at h
+  rw [if_neg hdoc] at h
+  simp only at h
+  split at h
+  · -- no candidate: reported
+    cases h
+    exact Or.inr ⟨_, by simp, rfl⟩
+  · split at h
+    · cases h
+    · rename_i res hres
+      left
+      have hd : res.dest ≠ Dest.none := by cases res <;> simp [Result.dest]
+      split at h <;> (cases h; exact hd)
+
+end RefDestination
 
 end SnootyVerif.C04
